@@ -20,7 +20,9 @@ Verdict(t) ==
                   a2 == IF bad13 # "" THEN Append(a1, [c |-> bad13, at |-> i]) ELSE a1
               IN <<c[1], a2, acc[3] \o call.delta>>,
             <<0, <<>>, <<>>>>, [i \in 1..Len(t.calls) |-> i])
-      e2e == IF t.mode = "clean" /\ r[3] # t.plan_payloads THEN <<[c |-> "C13.end_to_end", at |-> 0]>> ELSE <<>>
+      e2e == IF t.mode = "clean" /\ r[3] # t.plan_payloads THEN <<[c |-> "C13.end_to_end", at |-> 0]>>
+             \* message protocol on a clean stream: every planned message is valid and arrives from the selecting chunk on, so none may be missing
+             ELSE IF t.mode = "clean_count" /\ Len(r[3]) < t.plan_count THEN <<[c |-> "C13.end_to_end", at |-> 0]>> ELSE <<>>
       fails == r[2] \o e2e
   IN [id |-> t.id, ok |-> fails = <<>>, fails |-> fails]
 Traces == ndJsonDeserialize(IOEnv.TRACE_FILE)
